@@ -187,6 +187,13 @@ def runHolds (caseToks obsToks : List String) : String :=
     match parseReattach rest, parseReattachObs obsToks with
     | some c, some o => boolStr (holdsReattachFree c.gens c.tgt o)
     | _, _ => "false"
+  | "bridgestall" :: rest =>
+    -- obs: <bridge obs> cds <b> stalled <b>: while the statistics backend was stalled, both ends were closed
+    match parseBridge rest, parseBridgeObs (obsToks.takeWhile (· != "cds")), obsToks.dropWhile (· != "cds") with
+    | some c, some o, ["cds", cds, "stalled", st] =>
+      boolStr (holdsBridge c.src c.tgt o && holdsNoSpontaneousClose c.src c.tgt c.sw c.tw o && (st != "1" || cds == "1")
+        && (cds == "1" || cds == "0"))
+    | _, _, _ => "false"
   | "bridge" :: rest =>
     match parseBridge rest, parseBridgeObs obsToks with
     | some c, some o => boolStr (holdsBridge c.src c.tgt o && holdsNoSpontaneousClose c.src c.tgt c.sw c.tw o)
